@@ -87,7 +87,7 @@ def run_c01(ctx):
     wc = random_cases(ctx, 150 if q else 2000, ["wide_leaf"], wide=True, max_kids=3, depth=2, values=(-3, 40000))
     for c in wc: c["wide"] = True
     cases += wc
-    cases = chain_preludes(cases) + edit_twins(ctx) + narrow_min_cases(ctx)
+    cases = chain_preludes(cases) + edit_twins(ctx) + narrow_min_cases(ctx) + shared_depth_cases(ctx)
     ctx.pmap(drivers.drv_to_poly, _stamp(cases, "drv_to_poly"))
     if not q: repo_test_events(ctx, ['to_poly'])
     ctx.validate()
@@ -105,6 +105,21 @@ def narrow_min_cases(ctx):
             out.append({"recipe": r, "src": "handmade", "form": 6})          # every value as a scalar of the narrowest numpy type
             out.append({"recipe": r, "src": "handmade", "form": 3})          # ... as numpy.int64
     ctx.region("leaf_at_narrow_type_minimum")
+    return out
+
+def shared_depth_cases(ctx):
+    """one sub-proposition OBJECT used at two different depths (directly below a node and again below a later sibling), in both id
+    orders; the models are built with shared Python objects and queried several times"""
+    x, y, z, v, w = (LEAF(i) for i in "xyzvw")
+    out = []
+    for bid, qid in (("B", "Q"), ("Q", "B"), ("B", "P"), ("Z", "C")):
+        for Bn in (_R("Any", x, y, id=bid), _R("AtLeast", x, y, LEAF("t", -1, 1), v=1, s=1, id=bid), _R("All", x, y, id=bid)):
+            P = _R("AtLeast", Bn, v, v=1, s=1, id="P" if qid != "P" else "P2")
+            Q = _R("AtLeast", P, z, v=2, s=1, id=qid)
+            for top in (_R("AtLeast", Bn, Q, w, v=2, s=1, id="R"), _R("Any", Bn, Q, id="R"), _R("All", _R("Not", Bn), Q, id="R"), _R("Imply", Bn, Q, id="R"),
+                        _R("Xor", Bn, Q, id="R")):
+                out.append({"recipe": top, "share": True, "src": "handmade"})
+    ctx.region("object_shared_at_two_depths", len(out))
     return out
 
 def range_twins(ctx):
@@ -183,6 +198,7 @@ def run_c03(ctx):
     cases += random_cases(ctx, 300 if q else 4000, REGIONS + ["prefixed_compound"], max_box=128, prefix=0.2)
     cases += [dict(c, n_over=2) for c in narrow_min_cases(ctx)]
     cases += [dict(c, n_over=1) for c in range_twins(ctx)]
+    cases += [dict(c, n_over=1) for c in shared_depth_cases(ctx)]
     # one dictionary used for two models with different leaves; integer leaves whose range contains -1 and -2
     a_, b_, x_, y_ = LEAF("a"), LEAF("b"), LEAF("x"), LEAF("y")
     t2 = LEAF("t", -2, 1)
@@ -288,6 +304,7 @@ def run_c06(ctx):
     for c in rc: c["max_interps"] = 12 if q else 40
     rc += [dict(c, max_interps=12) for c in narrow_min_cases(ctx)]
     rc += [dict(c, max_interps=20) for c in range_twins(ctx)]
+    rc += [dict(c, max_interps=30) for c in shared_depth_cases(ctx)]
     cases += rc
     ctx.pmap(drivers.drv_partial, _stamp(cases, "drv_partial"))
     if not q: repo_test_events(ctx, ['evaluate'])
@@ -306,6 +323,7 @@ def run_c07(ctx):
     rc = random_cases(ctx, 250 if q else 3000, REGIONS + ["prefixed_compound"], max_box=64, prefix=0.2)
     for c in rc: c.update(max_ids=3, n_dicts=8 if q else 24)
     cases += rc
+    cases += [dict(c, max_ids=2, n_dicts=8) for c in shared_depth_cases(ctx)]
     # integer leaves whose range contains both -1 and -2 (the same model object is evaluated for both)
     t2, a_, b_ = LEAF("t", -2, 1), LEAF("a"), LEAF("b")
     for r_ in (_R("AtLeast", t2, a_, b_, v=-1, s=1, id="N"), _R("All", a_, _R("Any", b_, t2, id="B"), id="A"), _R("AtLeast", a_, t2, v=0, s=-1, id="M"),
@@ -351,6 +369,12 @@ def adversarial_handmade():
         out.append(_R("All", _R("Any", B1, x), _R("Any", B2, y)))
         out.append(_R("All", B1, _R("Any", _R("All", B2, x), y)))
         out.append(_R("All", _R("Not", _R("AtLeast", a, b, c, v=-v1 + 1, s=1, id="B")), _R("Not", _R("AtLeast", a, b, c, v=-v2 + 1, s=1, id="B"))))
+    # cycles that close through leaf references between DIFFERENT sub trees (no node is an ancestor of its own id)
+    out.append(_R("All", _R("Any", LEAF("B"), x, id="A"), _R("Any", LEAF("A"), y, id="B")))
+    out.append(_R("All", _R("Any", LEAF("B"), x, id="A"), _R("Any", LEAF("C"), y, id="B"), _R("Any", LEAF("A"), c, id="C")))
+    out.append(_R("Any", _R("All", _R("Any", LEAF("B"), x, id="A"), y), _R("All", _R("Any", LEAF("A"), y, id="B"), x)))
+    out.append(_R("All", _R("Any", LEAF("B"), x, id="A"), _R("Any", _R("All", LEAF("A"), y, id="K"), c, id="B")))
+    out.append(_R("All", _R("Any", LEAF("B"), x, id="A"), _R("Any", a, y, id="B")))              # a reference without a cycle (control)
     # an id defined twice below different parents with equal child ids, the definitions differing one level further down
     for K1, K2 in ((_R("Any", a, b, id="K"), _R("All", a, b, id="K")), (_R("Any", a, b, id="K"), _R("Any", a, c, id="K")),
                    (_R("AtLeast", a, b, c, v=2, s=1, id="K"), _R("AtLeast", a, b, c, v=3, s=1, id="K"))):
